@@ -41,6 +41,7 @@ type txTrace struct {
 	Calls     int
 	Caught    int
 	FailedAt  string
+	BTPSends  int
 	cur       int
 }
 
@@ -177,8 +178,20 @@ func (s *verifScore) exec(prog string) error {
 			cc.OnEvent(scoreAddr, [][]byte{[]byte("Ev(int)"), big.NewInt(o.N).Bytes()}, nil)
 			tr.Mutations++
 		case "btp":
+			// what ChainScore.Ex_sendBTPMessage does: touches the BTP STATE
+			// (message serial number of the network) and queues the message
+			bs, ok := cc.GetBTPState().(*state.BTPStateImpl)
+			if !ok {
+				return scoreresult.UnknownFailureError.New("NoBTPState")
+			}
+			bc := state.NewBTPContext(cc, cc.GetAccountState(state.SystemID))
+			if _, err := bs.HandleMessage(bc, scoreAddr, o.N); err != nil {
+				tr.FailedAt = "btp-send"
+				return err
+			}
 			cc.OnBTPMessage(o.N, []byte(o.V))
 			tr.Mutations++
+			tr.BTPSends++
 		case "addval":
 			v, err := state.ValidatorFromAddress(common.MustNewAddressFromString(o.To))
 			if err != nil {
@@ -248,9 +261,36 @@ func (s *verifScore) exec(prog string) error {
 	return nil
 }
 
-// install deploys the SCORE at its fixed address (run inside the setup block).
-func install(owner module.Address) func(cc contract.CallContext, txID []byte) error {
+// install deploys the SCORE at its fixed address, makes val the validator
+// with a BTP public key and opens BTP network 1 owned by the SCORE (run
+// inside the setup block).
+func install(owner module.Address, val module.Wallet) func(cc contract.CallContext, txID []byte) error {
 	return func(cc contract.CallContext, txID []byte) error {
-		return contract.DeployAndInstallSystemSCORE(cc, scoreCID, owner, scoreAddr, nil, txID)
+		if err := contract.DeployAndInstallSystemSCORE(cc, scoreCID, owner, scoreAddr, nil, txID); err != nil {
+			return err
+		}
+		v, err := state.ValidatorFromAddress(val.Address())
+		if err != nil {
+			return err
+		}
+		if err := cc.GetValidatorState().Set([]module.Validator{v}); err != nil {
+			return err
+		}
+		bs, ok := cc.GetBTPState().(*state.BTPStateImpl)
+		if !ok {
+			return fmt.Errorf("no BTP state")
+		}
+		bc := state.NewBTPContext(cc, cc.GetAccountState(state.SystemID))
+		if err := bs.SetPublicKey(bc, val.Address(), "ecdsa/secp256k1", val.PublicKey()); err != nil {
+			return err
+		}
+		_, nid, err := bs.OpenNetwork(bc, "eth", "verif-net", scoreAddr)
+		if err != nil {
+			return err
+		}
+		if nid != 1 {
+			return fmt.Errorf("unexpected network id %d", nid)
+		}
+		return nil
 	}
 }
